@@ -6,10 +6,10 @@
 //verif:shard VerifC14dDecayer 3
 //verif:obligation C14.f a peer whose last connection goes away and which reconnects while a trim is between collecting and selecting its candidates (the window in which the trim reads connection statistics): afterwards every peer with an open connection is still tracked with exactly that connection and the connection count equals what the notifications imply; the vanished connection is not selected
 //verif:obligation C14.d decaying tags through the real decayer goroutine (process loop) driven by benbjohnson's mock clock: on every history of 3 (thorough 4) operations from {Bump(delta 1..30), one tick, Remove} with a fixed-step decay function of symbolic step 1..20 and a static tag of symbolic value: after every operation the peer's cached value equals the sum of its static and decaying tag values, and a decaying value that reaches zero or below - also when the decay function overshoots below zero - is removed together with exactly its own contribution
-//verif:obligation C14.a getConnsToClose from an arbitrary manager state: up to 3 (thorough 4) tracked peers with symbolic tag value, temporary flag, first-seen instant, protection, 0..2 connections each (thorough: with symbolic direction and stream count), symbolic watermarks, grace period and clock: no connection of a protected peer or of a peer inside its grace period is selected; nothing is selected when the connection count is at or below the low watermark or the manager is disabled; a peer's connections are selected all or none; otherwise at most low-watermark connections remain among the eligible peers; no peer is closed while a lower-valued eligible (non-temporary, connected) peer is kept
+//verif:obligation C14.a getConnsToClose from an arbitrary manager state: up to 3 tracked peers with symbolic tag value, temporary flag, first-seen instant, protection, 0..2 connections each (thorough: with symbolic direction and stream count), symbolic watermarks, grace period and clock: no connection of a protected peer or of a peer inside its grace period is selected; nothing is selected when the connection count is at or below the low watermark or the manager is disabled; a peer's connections are selected all or none; otherwise at most low-watermark connections remain among the eligible peers; no peer is closed while a lower-valued eligible (non-temporary, connected) peer is kept
 //verif:obligation C14.b bookkeeping steps: TagPeer / UntagPeer / UpsertTag keep a peer's value equal to the sum of its tags for every tag history step (including re-tagging to zero); Connected / Disconnected keep the connection count equal to the number of tracked connections, ignore duplicates and unknown connections, and a peer that was only tagged before gets its grace period from the moment it connects
 //verif:obligation C14.c getConnsToCloseEmergency: a protected peer's connection is selected only if every connection of every unprotected peer is selected too
-//verif:bound 3 peers (thorough 4; two of them share a segment), <= 2 connections per peer, peer values any int (the whole range: a peer pinned at MaxInt against a penalised one), tag values of the tagging operations in [-2^40, 2^40], sort.Slice summarised by an insertion network over the real comparator (<= 8 elements)
+//verif:bound 3 peers (two of them share a segment; thorough: the comparator's tie-breakers - direction, streams - symbolic too), <= 2 connections per peer, peer values any int (the whole range: a peer pinned at MaxInt against a penalised one), tag values of the tagging operations in [-2^40, 2^40], sort.Slice summarised by an insertion network over the real comparator (<= 8 elements)
 //verif:stub network.Conn stub (RemotePeer, Stat); clock stub; sort.Slice summary of the engine; mutexes sequential
 //verif:outside concurrent trims and tagging (lock discipline), decaying tags, silence period of the background loop, memory watchdog
 package connmgr
@@ -74,7 +74,7 @@ type vC14peer struct {
 	inGrace   bool
 }
 
-func vC14state(cm *BasicConnMgr, n int, shardBits int) []vC14peer {
+func vC14state(cm *BasicConnMgr, n int, shardBits int, ties bool) []vC14peer {
 	now := int64(vRange(1<<40, 1<<50))
 	vC14now = time.Unix(0, now)
 	cm.cfg.gracePeriod = time.Duration(vRange(0, 1<<39))
@@ -97,7 +97,7 @@ func vC14state(cm *BasicConnMgr, n int, shardBits int) []vC14peer {
 		}
 		for k := 0; k < nconns; k++ {
 			c := &vC14conn{p: vC14ids[i], idx: k}
-			if vTier() > 0 { // tie-breakers of the comparator (direction, streams) do not matter to the statement
+			if ties { // tie-breakers of the comparator (direction, streams) do not matter to the statement
 				c.inbound, c.streams = vBool(), vRange(0, 100)
 			}
 			inf.conns[c] = vC14now
@@ -127,13 +127,13 @@ func vC14selected(sel []network.Conn, c *vC14conn) int {
 }
 
 func VerifC14aTrim() {
-	n := 3 + vTier()
+	n := 3                       // a fourth peer was tried for the thorough tier: the 14 parallel jobs ran the machine out of memory (39 GB); thorough keeps 3 peers and makes the comparator's tie-breakers symbolic
 	shard := vCase(1 << (2 * 3)) // connections per peer for the first three peers: 0,1,2 or absent
 	if n == 4 {
 		shard |= vCase(4) << 6
 	}
 	cm := vC14mgr()
-	peers := vC14state(cm, n, shard)
+	peers := vC14state(cm, n, shard, vTier() > 0)
 	cm.cfg.lowWater, cm.cfg.highWater = vRange(0, 8), vRange(0, 16)
 	total := int(cm.connCount.Load())
 	sel := cm.getConnsToClose()
@@ -198,7 +198,7 @@ func VerifC14aTrim() {
 func VerifC14cEmergency() {
 	shard := vCase(1 << 6)
 	cm := vC14mgr()
-	peers := vC14state(cm, 3, shard)
+	peers := vC14state(cm, 3, shard, false) // symbolic tie-breakers here (two sorts) ran the thorough tier out of memory
 	target := vRange(0, 8)
 	sel := cm.getConnsToCloseEmergency(target)
 	anyProtected, allUnprotected := false, true
